@@ -18,6 +18,10 @@ import explore as E  # noqa: E402
 def run_one(plan, seed, choices=None, max_steps=6000):
     if choices is not None:
         chooser = Sc.replay_chooser(choices)
+    elif seed % 5 == 4:
+        chooser = Sc.starving_chooser(seed, victim_role="user")
+    elif seed % 5 in (2, 3):
+        chooser = Sc.freezing_chooser(seed)
     elif seed % 2:
         chooser = Sc.sticky_chooser(seed)
     else:
